@@ -11,6 +11,8 @@ func getState(p *parser) map[string]any { return nil }
 
 func stateOfCur(c *current) map[string]any { return nil }
 
+func initOpts(c *caseSpec) []Option { return nil }
+
 // The optimized template without state blocks has no stateCodeExpr type; the
 // generator never emits state blocks for this variant.
 type unknownStateCodeExpr struct{}
